@@ -811,7 +811,7 @@ func generate(r *hxlib.Run, emit func(hxlib.Case)) {
 	})
 
 	// ---- generated cases ----------------------------------------------------------------------------
-	nCases := r.Budget(1700, 26000)
+	nCases := r.Budget(1500, 26000)
 	for ci := 0; ci < nCases; ci++ {
 		rootRel := pick(rng, rootRels)
 		comp := []string{"fst", "ds", "upd", "dsh"}[ci%4]
